@@ -365,6 +365,9 @@ class LoopCallbackProtocol(Protocol):
         (getattr(ip.task.c, "callback_havoc", None) or _havoc_by_callback)(st)
         exc = {1: SExc(ExitMainLoop, (), site="user callback"), 2: SExc(Exception, ("<user callback raised>",), site="user callback"),
                3: SExc(InterruptedError, ("<user callback raised InterruptedError>",), site="user callback")}.get(k)
+        third = getattr(ip.task.c, "callback_third_exception", None)  # another loop's run() names another class
+        if k == 3 and third is not None:
+            exc = third(st)
         st.ghost["callback_raised"] = exc  # ghost: what the last user callback raised (None: it returned)
         if exc is not None:
             raise PyRaise(exc)
